@@ -40,25 +40,25 @@ Proof.
       * intros [[H1|H1] (f & H2 & H3)]; [subst j; congruence|eauto].
 Qed.
 
-Lemma search_ids_pure rem_rec s x now :
+Lemma search_ids_pure s x now :
   no_expired s now ->
   forall ids acc,
-    search_ids rem_rec s ids (dw_pattern x) now acc =
+    search_ids s ids (dw_pattern x) now acc =
     (s, Ok (rev acc ++ pure_hits (st_facts s) x ids)%list).
 Proof.
   intros Hne. induction ids as [|id ids IH]; intros acc; cbn [search_ids pure_hits].
   - rewrite app_nil_r. reflexivity.
   - destruct (alookup id (st_facts s)) as [fact|] eqn:Hp; [|apply IH].
-    unfold expire. rewrite (Hne id fact Hp). cbv beta iota delta [expire_stops].
+    unfold expire. rewrite (Hne id fact Hp).
     destruct (core_match_dw_ok x fact) as [r Hr]. rewrite Hr.
     destruct r as [|b bss]; [apply IH|].
     rewrite IH. cbn [rev]. rewrite <- app_assoc. reflexivity.
 Qed.
 
-Lemma search_state_pure rem_rec s x now :
+Lemma search_state_pure s x now :
   st_kind s = Linear -> no_expired s now ->
   exists found,
-    search_state rem_rec s (dw_pattern x) now = (s, Ok found) /\
+    search_state s (dw_pattern x) now = (s, Ok found) /\
     forall j, In j (map fst found) <->
               exists fact, alookup j (st_facts s) = Some fact /\ dw_hit x fact = true.
 Proof.
@@ -116,7 +116,7 @@ Section OkGen.
       eapply no_expired_aremove; eauto. }
     unfold delete_dependencies.
     destruct Hs3 as (Hk3 & Hf3 & Hne3).
-    destruct (search_state_pure rem_rec s3 id now Hk3 Hne3) as (found & Hsearch & _).
+    destruct (search_state_pure s3 id now Hk3 Hne3) as (found & Hsearch & _).
     rewrite Hsearch.
     match goal with |- context [rem_list rem_rec s3 ?ids ?skip now] =>
       destruct (rem_list_ok skip ids s3) as [H1 H2]; [repeat split; auto|];
@@ -256,7 +256,7 @@ Section ExactGen.
     assert (Hg3 : good s3 now) by (eapply Rm_good; eauto).
     pose proof Hg3 as (Hk3 & Hf3 & Hne3 & Hnv3).
     unfold delete_dependencies in Hb. rewrite Hk3 in Hb.
-    destruct (search_state_pure rem_rec s3 x now Hk3 Hne3) as (found & Hsearch & Hfound).
+    destruct (search_state_pure s3 x now Hk3 Hne3) as (found & Hsearch & Hfound).
     rewrite Hsearch in Hb.
     destruct (rem_list rem_rec s3 (map fst found) x now) as [s6 o] eqn:Erl.
     destruct o as [[]| | |]; try discriminate.
